@@ -54,6 +54,8 @@ type Req struct {
 	// of the other spellings the flag library takes for true (=true =1 =t =T =TRUE =True); 7-9 flags
 	// that are off are spelled out as =false / =0 / =F instead of being left away.
 	BoolSpelling int
+	// Verbosity (library path): 0 quiet, 1 verbose, 2 neither (messages go to discarded writers).
+	Verbosity int
 	// Reuse, when set (library path), is an endorse.Context an earlier run already went through.
 	Reuse *endorse.Context
 	// SeedVCSs pre-populates Context.VCSs (the documented multi-back-end transition field).
@@ -201,7 +203,14 @@ func endorseLib(a *worlda.Authority, vcs endorse.VersionControl, q Req) error {
 		defer cancel()
 		q.WithCancel(cancel)
 	}
-	ctx := output.NewContext(base, &output.Options{Quiet: true, Overwrite: q.Overwrite, KeepGoing: q.KeepGoing})
+	oo := &output.Options{Quiet: true, Overwrite: q.Overwrite, KeepGoing: q.KeepGoing}
+	switch q.Verbosity {
+	case 1:
+		oo.Quiet, oo.Verbose, oo.Out, oo.Err = false, true, io.Discard, io.Discard
+	case 2:
+		oo.Quiet, oo.Out, oo.Err = false, io.Discard, io.Discard
+	}
+	ctx := output.NewContext(base, oo)
 	return endorse.VirtualFirmware(endorse.NewContext(ctx, ec))
 }
 
